@@ -47,6 +47,12 @@ func c01() []*Ob {
 	docsWrite := OnField(Callee(fwWrite), "frac.ActiveWriter", "docs")
 	metaWrite := OnField(Callee(fwWrite), "frac.ActiveWriter", "meta")
 	return []*Ob{
+		{Prop: "C01", ID: "C01.12", Engine: "DOM(truncate)", Floor: 1,
+			Desc:  "the log is cut only where it was read to its end: in Active.Replay every truncation of .docs/.meta (truncateTails, or File.Truncate through whatever helper) is reached only on paths on which ReadDocBlock answered io.EOF — a replay that is left for another reason (the start-up context was cancelled by SIGTERM) and then cuts both files at the position it happened to reach destroys acknowledged bulks; the damage shows at the following start",
+			Check: func(c *Ctx) { truncateOnlyAtEOF(c) }},
+		{Prop: "C01", ID: "C01.11", Engine: "FIELDS+PROV", Floor: 4,
+			Desc:  "a re-sent bulk is indexed under its own tokens: when a bulk repeats ids the fraction already holds, metaDataCollector.Filter rebuilds every per-document column and the token offset table as an exclusive running sum (shared rule with C17.2) — a client that re-sends an unacknowledged batch together with new documents after a crash otherwise gets the new documents acknowledged, fetchable by id, and attached to another document's tokens, for good",
+			Check: shared("C17.2")},
 		{Prop: "C01", ID: "C01.1", Engine: "ORDER+DOM", Floor: 2,
 			Desc: "ActiveWriter.Write: the docs block is written (and synced) before the meta block; the meta write is only reached when the docs write returned err==nil; SetExt1/SetExt2 on the meta header precede the meta write",
 			Check: func(c *Ctx) {
@@ -610,5 +616,44 @@ func c01() []*Ob {
 					}
 				}
 			}},
+	}
+}
+
+// truncateOnlyAtEOF: rule body of C01.12, shared with C15.
+func truncateOnlyAtEOF(c *Ctx) {
+	fn := c.Fn("(*frac.Active).Replay")
+	if fn == nil {
+		return
+	}
+	trunc := c.P.MayCall(Callee("(*os.File).Truncate"))
+	calls := CallsIn(fn, trunc)
+	if len(calls) == 0 {
+		c.Undecided("dom:Replay:notrunc", fn.Pos(), "Replay no longer truncates the files (C01.6 decides whether that is right)")
+		return
+	}
+	isEOF := func(v ssa.Value) bool {
+		u, ok := v.(*ssa.UnOp)
+		if !ok {
+			return false
+		}
+		g, ok := u.X.(*ssa.Global)
+		return ok && g.Name() == "EOF" && g.Pkg != nil && g.Pkg.Pkg.Path() == "io"
+	}
+	for _, call := range calls {
+		ok := false
+		for _, f := range FactsAtInstr(call.(ssa.Instruction)) {
+			bo, isBo := f.Cond.(*ssa.BinOp)
+			if !isBo || (bo.Op != token.EQL && bo.Op != token.NEQ) || (bo.Op == token.EQL) != f.Val {
+				continue
+			}
+			if isEOF(bo.X) || isEOF(bo.Y) {
+				ok = true
+			}
+		}
+		if ok {
+			c.Site(call.Pos(), "the files are cut only after the log was read to io.EOF")
+		} else {
+			c.Violation("dom:Replay:truncate-needs-eof", call.Pos(), "Replay can cut .docs/.meta at the replayed position although the log was not read to its end (the loop was left for another reason than io.EOF, e.g. a cancelled context): everything behind that position — acknowledged bulks — is destroyed")
+		}
 	}
 }
